@@ -410,6 +410,28 @@ def gen_graph(seed: int, tier: str = "quick") -> Dict[str, Any]:
             c["init"] = {ua: f"init{len(conns)}"}
         used.add((a, se, b, de, va))
         conns.append(c)
+    if rng.random() < 0.3:
+        # attempts that connect() must refuse (unknown attribute, or missing initial data), e.g. the
+        # plain version of a connection that is then made time-shifted or weak: a refused call
+        # leaves nothing behind that the cycle check could see
+        for _ in range(rng.choice([1, 1, 2])):
+            if conns and rng.random() < 0.7:
+                base = rng.choice(conns)
+                a, b, se, de = base["src"], base["dst"], base["se"], base["de"]
+            else:
+                a, b, se, de = rng.randrange(n), rng.randrange(n), rng.randrange(2), rng.randrange(2)
+            if a == b and se == de:
+                continue
+            bad = {"src": a, "se": se, "dst": b, "de": de, "shift": 0, "weak": False, "refused": True}
+            if rng.random() < 0.5:
+                bad["pairs"] = [[rng.choice(["p_out", "e_out"]), "zz_in"]] if rng.random() < 0.5 else \
+                    [["zz_out", rng.choice(["m_in", "t_in"])]]
+            else:
+                bad["pairs"] = [["p_out", "m_in"]]       # non-trigger input ...
+                bad["shift"] = 1                          # ... time-shifted, without initial data
+                if (a, se, b, de, "m_in") in used:
+                    continue
+            conns.insert(rng.randrange(len(conns) + 1), bad)
     cfg = {"cache": rng.random() < 0.5, "lazy": rng.random() < 0.5, "debug": False, "mli": 6,
            "start_seed": None, "connect_seed": None, "order_seed": None}
     return {"groups": groups, "sims": sims, "conns": conns, "until": rng.choice([1, 2]), "config": cfg}
